@@ -216,8 +216,8 @@ pub fn c06(tier: Tier) -> Check {
                non-trivial = accepted configuration with padding or variable-length content",
         assumptions: vec!["FCI builders are judged only inside a feedback packet builder (they are not packet, compound, chunk or item builders)"],
         legs: vec![
-            Box::new(RandomLeg { name: "random-configs", cases: tier.pick(200_000, 1_000_000), make: Box::new(any_build_case), oracle: c06_oracle }),
-            Box::new(RandomLeg { name: "valid-configs", cases: tier.pick(150_000, 600_000), make: Box::new(valid_build_case), oracle: c06_oracle }),
+            Box::new(RandomLeg { name: "random-configs", cases: tier.pick(200_000, 3_000_000), make: Box::new(any_build_case), oracle: c06_oracle }),
+            Box::new(RandomLeg { name: "valid-configs", cases: tier.pick(150_000, 1_800_000), make: Box::new(valid_build_case), oracle: c06_oracle }),
             Box::new(SweepLeg {
                 name: "every-kind-x-every-padding-byte",
                 n: 256 * KIND_TEMPLATES as u64,
@@ -267,7 +267,7 @@ pub fn c06(tier: Tier) -> Check {
                 oracle: c06_oracle,
                 exhaustive: true,
             }),
-            Box::new(RandomLeg { name: "sdes-chunk-and-item-builders", cases: tier.pick(100_000, 300_000), make: Box::new(|| part_case(true)), oracle: c06_part_oracle }),
+            Box::new(RandomLeg { name: "sdes-chunk-and-item-builders", cases: tier.pick(100_000, 900_000), make: Box::new(|| part_case(true)), oracle: c06_part_oracle }),
             Box::new(SweepLeg { name: "sdes-item-length-limits", n: ITEM_SWEEP_N, at: Box::new(item_sweep), oracle: c06_part_oracle, exhaustive: true }),
             Box::new(SweepLeg { name: "largest-packets", n: 16, at: Box::new(|i| i), oracle: c06_total_oracle, exhaustive: false }),
         ],
@@ -484,7 +484,7 @@ pub fn c16(tier: Tier) -> Check {
             "for the total-size rule any error other than OutputTooSmall is accepted (the vocabulary has no dedicated variant)",
         ],
         legs: vec![
-            Box::new(RandomLeg { name: "random-configs", cases: tier.pick(400_000, 2_000_000), make: Box::new(any_build_case), oracle: c16_oracle }),
+            Box::new(RandomLeg { name: "random-configs", cases: tier.pick(400_000, 6_000_000), make: Box::new(any_build_case), oracle: c16_oracle }),
             Box::new(SweepLeg {
                 name: "every-kind-x-every-padding-byte",
                 n: 256 * KIND_TEMPLATES as u64,
@@ -670,8 +670,8 @@ pub fn c17(tier: Tier) -> Check {
                non-trivial = accepted with slack > 0, or failing with a non-empty buffer",
         assumptions: vec!["two prefills differing in every byte expose any byte the writer leaves undefined"],
         legs: vec![
-            Box::new(RandomLeg { name: "random-configs", cases: tier.pick(250_000, 1_200_000), make: Box::new(any_build_case), oracle: c17_oracle }),
-            Box::new(RandomLeg { name: "valid-configs", cases: tier.pick(200_000, 800_000), make: Box::new(valid_build_case), oracle: c17_oracle }),
+            Box::new(RandomLeg { name: "random-configs", cases: tier.pick(250_000, 3_600_000), make: Box::new(any_build_case), oracle: c17_oracle }),
+            Box::new(RandomLeg { name: "valid-configs", cases: tier.pick(200_000, 2_400_000), make: Box::new(valid_build_case), oracle: c17_oracle }),
             Box::new(SweepLeg {
                 name: "every-kind-x-every-padding",
                 n: 64 * KIND_TEMPLATES as u64,
@@ -889,7 +889,7 @@ pub fn c14(tier: Tier) -> Check {
                or NonLastCompoundPacketPadding. non-trivial = success with >= 2 leaf members",
         assumptions: vec!["not judged: an empty nested compound in last position after a padded sibling ('last member' is ambiguous there); counted in the class histogram"],
         legs: vec![
-            Box::new(RandomLeg { name: "random-member-lists", cases: tier.pick(200_000, 800_000), make: Box::new(compound_case), oracle: c14_oracle }),
+            Box::new(RandomLeg { name: "random-member-lists", cases: tier.pick(200_000, 2_400_000), make: Box::new(compound_case), oracle: c14_oracle }),
             Box::new(SweepLeg {
                 name: "pairs-of-kinds-x-padding-position",
                 n: (KIND_TEMPLATES * KIND_TEMPLATES * 4) as u64,
